@@ -60,7 +60,7 @@ Print Assumptions C18_decl_order_canonical.
 (* the pipeline with the order function and the initial counters as parameters is, at (identity,
    (0,0)), the model compiler that the check compares with the implementation *)
 Theorem C18_pipeline_is_compile_text : forall printable s,
-  fst (compile_text_g printable keep (0, 0) s) = compile_text printable s.
+  fst (compile_text_g printable keep gkeep (0, 0) s) = compile_text printable s.
 Proof. exact compile_text_g_id. Qed.
 Print Assumptions C18_pipeline_is_compile_text.
 
@@ -70,18 +70,31 @@ Print Assumptions C18_pipeline_is_compile_text.
 Theorem C18_set_order_refuted :
   exists (ord1 ord2 : list str -> list str) (s : str) (t1 t2 : str),
     (forall l, Permutation (ord1 l) l) /\ (forall l, Permutation (ord2 l) l)
-    /\ fst (compile_text_g no_unicode ord1 (0, 0) s) = CText t1
-    /\ fst (compile_text_g no_unicode ord2 (0, 0) s) = CText t2
+    /\ fst (compile_text_g no_unicode ord1 gkeep (0, 0) s) = CText t1
+    /\ fst (compile_text_g no_unicode ord2 gkeep (0, 0) s) = CText t2
     /\ t1 <> t2.
 Proof. exact set_order_refuted. Qed.
 Print Assumptions C18_set_order_refuted.
+
+(* the other container whose iteration order reaches the text: the dictionary (name, arity) -> clauses
+   of visitProgram, iterated by compile_program.  The model (group_program) iterates in insertion
+   order, as Python dicts do; if the order were anything else (a set of keys), two orders would give
+   two different texts for `p(a). q(b).` *)
+Theorem C18_group_order_refuted :
+  exists (g1 g2 : list (key * list clause) -> list (key * list clause)) (s : str) (t1 t2 : str),
+    (forall l, Permutation (g1 l) l) /\ (forall l, Permutation (g2 l) l)
+    /\ fst (compile_text_g no_unicode keep g1 (0, 0) s) = CText t1
+    /\ fst (compile_text_g no_unicode keep g2 (0, 0) s) = CText t2
+    /\ t1 <> t2.
+Proof. exact group_order_refuted. Qed.
+Print Assumptions C18_group_order_refuted.
 
 (* "after any other compilations in the same process": a process that creates its visitor and
    compiler (counters 0) in every call, as _compile_prolog_from_stream does, returns for each source
    compile_text of that source - whatever was compiled, or failed to compile, before and after.
    (By construction of `session`; the content is in the next theorem.) *)
 Theorem C18_counters_per_call : forall printable before after src,
-  session printable keep (before ++ src :: after)
+  session printable keep gkeep (before ++ src :: after)
   = map (compile_text printable) before ++ compile_text printable src :: map (compile_text printable) after.
 Proof. exact counters_per_call. Qed.
 Print Assumptions C18_counters_per_call.
@@ -91,10 +104,10 @@ Print Assumptions C18_counters_per_call.
    shown for the anonymous-variable counter alone (`p(_).`) and for the label counter alone
    (`p :- ( a -> b ; c ).`); the per-call process gives the same text twice. *)
 Theorem C18_shared_counters_refuted :
-  (exists s t1 t2, session_shared no_unicode keep (0, 0) [s; s] = [CText t1; CText t2] /\ t1 <> t2
-                   /\ session no_unicode keep [s; s] = [CText t1; CText t1])
-  /\ (exists s t1 t2, session_shared no_unicode keep (0, 0) [s; s] = [CText t1; CText t2] /\ t1 <> t2
-                   /\ session no_unicode keep [s; s] = [CText t1; CText t1]).
+  (exists s t1 t2, session_shared no_unicode keep gkeep (0, 0) [s; s] = [CText t1; CText t2] /\ t1 <> t2
+                   /\ session no_unicode keep gkeep [s; s] = [CText t1; CText t1])
+  /\ (exists s t1 t2, session_shared no_unicode keep gkeep (0, 0) [s; s] = [CText t1; CText t2] /\ t1 <> t2
+                   /\ session no_unicode keep gkeep [s; s] = [CText t1; CText t1]).
 Proof. exact shared_counters_refuted. Qed.
 Print Assumptions C18_shared_counters_refuted.
 
